@@ -51,6 +51,15 @@ RAW = [
                   "def make(k):\n    def inner(a):\n        return a * k\n    return inner\n\n\ndouble = make(2)\n\n\ndef make(k):\n    def inner(a):\n        return a + k\n    return inner\n\n\nplus3 = make(3)\n\n\n"
                   "@memento_function(cluster=\"vp\")\ndef m1(x):\n    vrec.REC.enter('m1', x)\n    return [old_helper(x), helper(x)]\n\n\n"
                   "@memento_function(cluster=\"vp\")\ndef m2(x):\n    vrec.REC.enter('m2', x)\n    return [double(x), plus3(x), m1(x)]\n"}),
+    # import orders: a circular import (the function is defined before or after the attribute it uses exists) and a plug-in
+    # module that adds entries to a table another module owns
+    dict(name="circular-import", ms=["m1"], orders=[["mod"], ["aux"], ["mod", "aux"], ["aux", "mod"]], files={
+        "aux.py": RAW_HEADER + "from . import mod\n\n\ndef factor(a):\n    return a * 3\n\n\nLIMIT = 10\n",
+        "mod.py": RAW_HEADER + "from . import aux\n\n\n@memento_function(cluster=\"vp\")\ndef m1(x):\n    vrec.REC.enter('m1', x)\n    return [aux.factor(x), aux.LIMIT]\n"}),
+    dict(name="plug-in-fills-a-table", ms=["m1"], orders=[["plugin", "mod"], ["mod", "plugin"], ["aux", "mod", "plugin"], ["plugin"]], files={
+        "aux.py": RAW_HEADER + "TABLE = {'m': 1}\nNAMES = ['m']\n",
+        "plugin.py": "from . import aux\naux.TABLE['ft'] = 3\naux.TABLE['in'] = 4\naux.NAMES.append('ft')\n",
+        "mod.py": RAW_HEADER + "from . import aux\n\n\n@memento_function(cluster=\"vp\")\ndef m1(x):\n    vrec.REC.enter('m1', x)\n    return [sorted(aux.TABLE.items()), aux.NAMES, x]\n"}),
     dict(name="two-packages", ms=["m1", "m2"], files={
         "vpb/__init__.py": "",
         "vpb/lib.py": RAW_HEADER + "RATE = 3\n\n\ndef round_half(a):\n    return a // 2 + RATE\n\n\ndef scale(a):\n    return round_half(a) * RATE\n\n\n"
@@ -98,7 +107,13 @@ def check_program(prog, root, seeds, rng_orders):
         os.makedirs(sub)
         pkg = "vpk"                      # the same package name everywhere (names are part of the version)
         vp.write_package(prog, sub, pkg, order)
-        acts = [["import", ["other-first", "other-last", None][i % 3]]] + [["versions", [q]] for q in qorder]
+        if raw and raw.get("orders"):
+            # the package's modules are imported in a given order, every module once at the end ("plugin" included)
+            first = raw["orders"][i % len(raw["orders"])]
+            acts = [["import", first + [m_[:-3] for m_ in sorted(raw["files"]) if m_.endswith(".py") and "/" not in m_ and m_[:-3] not in first]]]
+            acts += [["versions", [q]] for q in qorder]
+        else:
+            acts = [["import", ["other-first", "other-last", None][i % 3]]] + [["versions", [q]] for q in qorder]
         runs.append((sub, seed, acts, order, qorder))
 
     def go(r):
